@@ -58,6 +58,7 @@ private:
 
     /* Declarators */
     Action visitIdentifierDeclarator(const IdentifierDeclaratorSyntax*) override;
+    Action visitEnumeratorDeclaration(const EnumeratorDeclarationSyntax*) override;
 
     //-------------//
     // Expressions //
